@@ -65,16 +65,17 @@ class MapMeta:
     def root(self, x):
         """First line up the fork chain (harness's own graph walk) that some op produces; special slots map to themselves."""
         x = int(x)
-        if x in self._root: return self._root[x]
-        if x >= self.n_lines: r = x
-        elif x in self.producer_row: r = x
-        else:
+        path = []      # iterative: a net may run through more forks in series than the interpreter allows nested calls
+        while True:
+            if x in self._root: r = self._root[x]; break
+            path.append(x)
+            if x >= self.n_lines or x in self.producer_row: r = x; break
             d = self.circuit.lines[x].driver
             if d.kind == '__fork__' and id(d) not in self.snode_ids and len(d.ins) > 0 and d.ins[0] is not None:
-                r = self.root(d.ins[0].index)
+                x = int(d.ins[0].index)
             else:
-                r = None
-        self._root[x] = r
+                r = None; break
+        for y in path: self._root[y] = r
         return r
 
     def expected_tag(self, x):
